@@ -3,6 +3,8 @@
 //!   L b l e s | len | PANIC            block_length on the partition of (b,l,e), block s
 //!   S b l e   | len0 len1 ...          source bytes per SBN on the wire of a real No-Code session
 //!   R b l e   | z b'                   Z written by a RaptorQ sender, B rebuilt by the receiver's FTI parser
+//!   Z b l e   | tl len0 len1 ...       the same as S for a content-encoded (zlib) object of l compressible bytes:
+//!                                      tl = transfer length announced in-band; the blocks partition tl, not l
 use crate::util::*;
 use flute::verif_hooks::partition;
 
@@ -31,6 +33,13 @@ pub fn eval(input: &str) -> String {
             let (b, l, e) = (n(1), n(2), n(3));
             match catch(|| wire_lengths(b as u16, l as usize, e as u16)) {
                 Some(v) => v.iter().map(|x| format!("{:x}", x)).collect::<Vec<_>>().join(" "),
+                None => "PANIC".into(),
+            }
+        }
+        "Z" => {
+            let (b, l, e) = (n(1), n(2), n(3));
+            match catch(|| wire_lengths_cenc(b as u16, l as usize, e as u16)) {
+                Some((tl, v)) => format!("{:x} {}", tl, v.iter().map(|x| format!("{:x}", x)).collect::<Vec<_>>().join(" ")),
                 None => "PANIC".into(),
             }
         }
@@ -92,6 +101,50 @@ fn wire_lengths(b: u16, l: usize, e: u16) -> Vec<u64> {
         lens[sbn] += plen;
     }
     lens
+}
+
+/// As wire_lengths, for a zlib-encoded object whose content compresses well (transfer length << content
+/// length): returns the transfer length carried by EXT_FTI and the source payload bytes per SBN.
+fn wire_lengths_cenc(b: u16, l: usize, e: u16) -> (u64, Vec<u64>) {
+    use flute::core::{Oti, UDPEndpoint};
+    use flute::sender::{Config, ObjectDesc, Sender, TransferConfig};
+    let oti = Oti::new_no_code(e, b);
+    let mut cfg = Config::default();
+    cfg.interleave_blocks = 2;
+    let ep = UDPEndpoint::new(None, "224.0.0.1".to_string(), 1234);
+    let mut sender = Sender::new(ep, 1, &oti, &cfg);
+    let data: Vec<u8> = (0..l).map(|i| ((i / 7) % 5) as u8 + b'a').collect();
+    let mut tc = TransferConfig::default();
+    tc.cenc = flute::core::lct::Cenc::Zlib;
+    tc.inband_cenc = true;
+    let obj = ObjectDesc::create_from_buffer(data, "text/plain", &url::Url::parse("file:///z").unwrap(), true, tc).unwrap();
+    let toi = sender.add_object(0, obj).unwrap();
+    let now = std::time::SystemTime::now();
+    sender.publish(now).unwrap();
+    let mut lens: Vec<u64> = Vec::new();
+    let mut tl = 0u64;
+    let mut guard = 0;
+    while let Some(data) = sender.read(now) {
+        guard += 1;
+        if guard > 1_000_000 {
+            panic!("sender does not quiesce");
+        }
+        let pkt = flute::core::alc::parse_alc_pkt(&data).unwrap();
+        if pkt.lct.toi != toi {
+            continue;
+        }
+        if let Some(t) = pkt.transfer_length {
+            tl = t;
+        }
+        let pid = flute::core::alc::parse_payload_id(&pkt, &oti).unwrap();
+        let plen = (data.len() - pkt.data_payload_offset) as u64;
+        let sbn = pid.sbn as usize;
+        if lens.len() <= sbn {
+            lens.resize(sbn + 1, 0);
+        }
+        lens[sbn] += plen;
+    }
+    (tl, lens)
 }
 
 /// Run a real RaptorQ sender, take the first object packet, parse it with flute's receiver-side
@@ -213,6 +266,14 @@ fn gen(args: &Args, emit: &mut dyn FnMut(String)) {
         for e in 1..=se {
             for l in 1..=sl {
                 emit(format!("S {:x} {:x} {:x}", b, l, e));
+            }
+        }
+    }
+    // content-encoded objects: the partition is that of the TRANSFER length
+    for b in 1..=(if thorough { 6u64 } else { 4 }) {
+        for e in [1u64, 2, 3, 5] {
+            for l in [40u64, 300, 1500, 6000, 20000] {
+                emit(format!("Z {:x} {:x} {:x}", b, l, e));
             }
         }
     }
